@@ -1919,6 +1919,163 @@ theorem insert_sync_calm {p : Params} (hq : NoQuirks p) (hsm : SmallSketch p) {c
       (candOp p s k v) hr rfl m3 m4
     exact ⟨e1.trans m1, e2.trans m2⟩
 
+/-! ### an insert of a new key that fits -/
+
+/-- A time stamp taken now is not expired when the duration is not zero. -/
+theorem expiredTs_now {d va : Option Nat} {now : Nat} (hva : ∀ v, va = some v → v ≤ now)
+    (hd : d ≠ some 0) : expiredTs d va now now = false := by
+  unfold expiredTs
+  rw [Bool.or_eq_false_iff]
+  refine ⟨?_, ?_⟩
+  · cases hv : va with
+    | none => rfl
+    | some v =>
+      have := hva v hv
+      simp only [decide_eq_false_iff_not, Nat.not_lt]
+      exact this
+  · cases hd' : d with
+    | none => rfl
+    | some d' =>
+      have : d' ≠ 0 := fun e => hd (by rw [hd', e])
+      simp only [decide_eq_false_iff_not, Nat.not_le]
+      omega
+
+/-- `handle_upsert` for the queued insert of a new key that finds room: admitted without
+consulting the popularity estimates, no resident leaves. -/
+theorem handleUpsert_fits {p : Params} (hq : NoQuirks p) {cap : Nat} (hcap : p.cap = some cap)
+    {s : SState} {k v : Nat} {ve : VE} (oldW w0 : Nat)
+    (hcand : AL.get? s.map k = some ve) (hval : ve.val = v)
+    (hna : (getInfo s ve.info).admitted = false) (hroom : s.cws + p.weigh k v ≤ cap) :
+    (handleUpsert p s k (p.hash k) ve oldW w0).map = s.map ∧
+    (∃ node : AoNode, node.key = k ∧
+      (handleUpsert p s k (p.hash k) ve oldW w0).prob = s.prob ++ [node]) ∧
+    (handleUpsert p s k (p.hash k) ve oldW w0).cws = s.cws + p.weigh k v := by
+  have hd7 : p.q.d7 = false := by rw [hq]
+  have hd10 : p.q.d10 = false := by rw [hq]
+  have hcw : currentWeight p s k ve w0 = p.weigh k v := by
+    unfold currentWeight
+    rw [hd10, hcand]
+    simp only [Bool.false_eq_true, if_false, beq_self_eq_true, if_true, hval]
+  unfold handleUpsert
+  dsimp only
+  rw [hcw]
+  generalize hs1 : withInfo s ve.info (fun i => { i with dirty := false }) = s1
+  have hg : ∀ j, getInfo s1 j =
+      if ve.info = j then { getInfo s ve.info with dirty := false } else getInfo s j := by
+    intro j; rw [← hs1]; exact getInfo_withInfo _ _ _ _
+  have hm1 : s1.map = s.map := by rw [← hs1]; rfl
+  have hp1 : s1.prob = s.prob := by rw [← hs1]; rfl
+  have hc1 : s1.cws = s.cws := by rw [← hs1]; rfl
+  have hna1 : ¬ (getInfo s1 ve.info).admitted = true := by
+    rw [hg, if_pos rfl]
+    show ¬ (getInfo s ve.info).admitted = true
+    rw [hna]; exact Bool.false_ne_true
+  rw [if_neg hna1]
+  have hcurE : isCurrentEntry s1 k ve = true := by
+    unfold isCurrentEntry
+    rw [hm1, hcand]
+    exact beq_self_eq_true _
+  rw [hd7, hcurE]
+  simp only [Bool.not_false, Bool.not_true, Bool.and_false, Bool.false_eq_true, if_false]
+  have hroom1 : hasEnoughCapacity p (p.weigh k v) s1 = true := by
+    unfold hasEnoughCapacity
+    rw [hcap, hc1]
+    simp only [decide_eq_true_eq]
+    exact hroom
+  rw [if_pos hroom1]
+  obtain ⟨a1, a2, a3⟩ := handleAdmit_exact p s1 k (p.hash k) ve (p.weigh k v)
+  exact ⟨by rw [a1, hm1], ⟨_, rfl, by rw [a2, hp1]⟩, by rw [a3, hc1]⟩
+
+/-- In a quiescent calm state, the insert of a new key that fits outright (and does not expire
+the moment it is inserted), followed by a maintenance run: the key is resident, at the most
+recently used end, and no resident has left. -/
+theorem insert_sync_fits {p : Params} (hq : NoQuirks p) (hsm : SmallSketch p) {cap : Nat}
+    (hcap : p.cap = some cap) {s : SState} (hi : AInv p s) (hc : CalmS p cap s) (k v : Nat)
+    (hnew : AL.get? s.map k = none) (hroom : s.ws + p.weigh k v ≤ cap)
+    (httl : p.ttl ≠ some 0) (htti : p.tti ≠ some 0) :
+    (syncRun p (insert p s k v)).map = AL.put s.map k (candVE s v) ∧
+    ∃ node : AoNode, node.key = k ∧ (syncRun p (insert p s k v)).prob = s.prob ++ [node] := by
+  have hnc := hi.top.nodes.toNodesCore
+  have hne := hc.noExp hnc
+  have hins := insert_fresh p hi.q v hnew
+  have hi2 : AInv p (insert p s k v) := by
+    have := step_ainv hq hsm hi (.ins k v)
+    rw [step_fst p s _ hi.top.nofault] at this
+    exact this
+  have c_info := getInfo_withCand p s k v
+  have c_map : (withCand p s k v).map = AL.put s.map k (candVE s v) := rfl
+  have c_prob : (withCand p s k v).prob = s.prob := rfl
+  have c_va : (withCand p s k v).va = s.va := rfl
+  have c_now : (withCand p s k v).now = s.now := rfl
+  have c_ws : (withCand p s k v).ws = s.ws := rfl
+  have c_wq : (withCand p s k v).writeQ = [] := hc.writeQ
+  have c_rq : (withCand p s k v).readQ = [] := hc.readQ
+  have hne_c : NoExp p (withCand p s k v) := by
+    refine ⟨?_, ?_⟩
+    · intro n hn
+      have hlt := node_info_lt hnc (show n ∈ s.prob from hn)
+      rw [c_info, if_neg (by omega)]
+      exact hne.ao n hn
+    · intro n hn
+      have hlt := wo_info_lt hnc (show n ∈ s.wo from hn)
+      rw [c_info, if_neg (by omega)]
+      exact hne.wo n hn
+  have hQ := housekeepW_quiet hcap (s := withCand p s k v) hc.readQ hc.writeQ hne_c hc.ws
+    hi.top.sk.skOff
+  generalize withCand p s k v = c at hins c_info c_map c_prob c_va c_now c_ws c_wq c_rq hne_c hQ
+  generalize housekeepW p c = H at hins hQ
+  have hHw : H.writeQ = [] := by rw [hQ.writeQ]; exact c_wq
+  rw [hHw, List.nil_append] at hins
+  rw [hins] at hi2 ⊢
+  have key : ∀ g : SState, g.map = H.map → g.infos = H.infos → g.prob = H.prob → g.wo = H.wo →
+      g.va = H.va → g.now = H.now → g.cws = H.ws →
+      (handleUpsert p g k (p.hash k) (candVE s v) 0 (p.weigh k v)).map =
+        AL.put s.map k (candVE s v) ∧
+      (∃ node : AoNode, node.key = k ∧
+        (handleUpsert p g k (p.hash k) (candVE s v) 0 (p.weigh k v)).prob = s.prob ++ [node]) ∧
+      NoExp p (handleUpsert p g k (p.hash k) (candVE s v) 0 (p.weigh k v)) ∧
+      (handleUpsert p g k (p.hash k) (candVE s v) 0 (p.weigh k v)).cws ≤ cap := by
+    intro g gm gi gp gw gva gnow gcws
+    have hgm : g.map = AL.put s.map k (candVE s v) := by rw [gm, hQ.map, c_map]
+    have hgp : g.prob = s.prob := by rw [gp, hQ.prob, c_prob]
+    have hgva : g.va = s.va := by rw [gva, hQ.va, c_va]
+    have hgnow : g.now = s.now := by rw [gnow, hQ.now, c_now]
+    have hgI : ∀ j, getInfo g j = if s.nextId = j then candInfo p s k v else getInfo s j := by
+      intro j; rw [getInfo_congr gi, getInfo_congr hQ.infos, c_info]
+    have hgc : g.cws = s.ws := by rw [gcws, hQ.ws, c_ws]
+    have hcand : AL.get? g.map k = some (candVE s v) := by rw [hgm]; exact AL.get?_put_self _ _ _
+    have hna : (getInfo g (candVE s v).info).admitted = false := by
+      rw [hgI, if_pos (show s.nextId = (candVE s v).info from rfl)]; rfl
+    have hneg : NoExp p g := by
+      refine ⟨?_, ?_⟩
+      · intro n hn
+        rw [gp, hQ.prob] at hn
+        rw [gva, hQ.va, getInfo_congr gi, getInfo_congr hQ.infos, gnow, hQ.now]
+        exact hne_c.ao n hn
+      · intro n hn
+        rw [gw, hQ.wo] at hn
+        rw [gva, hQ.va, getInfo_congr gi, getInfo_congr hQ.infos, gnow, hQ.now]
+        exact hne_c.wo n hn
+    obtain ⟨m1, m2, m3⟩ := handleUpsert_fits hq hcap (s := g) (k := k) (v := v)
+      (ve := candVE s v) 0 (p.weigh k v) hcand rfl hna (by rw [hgc]; exact hroom)
+    have hfr := handleUpsert_frame0 p g k (p.hash k) (candVE s v) 0 (p.weigh k v)
+    have hsc := handleUpsert_subc p g k (p.hash k) (candVE s v) 0 (p.weigh k v)
+    refine ⟨by rw [m1, hgm], by rw [hgp] at m2; exact m2, ?_, by rw [m3, hgc]; exact hroom⟩
+    refine hneg.of_frame_subc hfr hsc ?_ ?_
+    · rw [hgva, hgnow, hgI, if_pos (show s.nextId = (candVE s v).info from rfl)]
+      exact expiredTs_now hi.ts.va htti
+    · rw [hgva, hgnow, hgI, if_pos (show s.nextId = (candVE s v).info from rfl)]
+      exact expiredTs_now hi.ts.va httl
+  have hr : ({ H with writeQ := [candOp p s k v] } : SState).readQ = [] := by
+    show H.readQ = []
+    rw [hQ.readQ]; exact c_rq
+  obtain ⟨m1, m2, m3, m4⟩ := key
+    { { H with writeQ := [candOp p s k v] } with cec := H.ec, cws := H.ws, writeQ := [] }
+    rfl rfl rfl rfl rfl rfl rfl
+  obtain ⟨e1, e2⟩ := syncRun_one hcap (s := { H with writeQ := [candOp p s k v] })
+    (candOp p s k v) hr rfl m3 m4
+  exact ⟨e1.trans m1, by obtain ⟨node, a1, a2⟩ := m2; exact ⟨node, a1, e2.trans a2⟩⟩
+
 /-! ### snapshots versus states -/
 
 theorem snapshot_entries_all {p : Params} {s : SState} (f : EntryView → Bool) :
@@ -3887,6 +4044,804 @@ theorem rawStep_rinv {p : Params} (hq : NoQuirks p) (hsm : SmallSketch p) {s : S
     | invAll => exact h.gd.of_eq rfl rfl rfl
     | adv d => exact h.gd.of_eq rfl rfl rfl
     | _ => exact h.gd
+
+/-! ### the invariant of a segment with at most one use -/
+
+/-- `N`: the access order at the last quiescent snapshot; `mv`: the key used since (at most
+one); `u`: the info of that use; `d`: the use has been applied by maintenance. -/
+structure SI (N : List AoNode) (mv : List Nat) (u : Option Nat) (d : Bool) (s : SState) : Prop where
+  seg : Seg d u N s
+  rq : RQU u s.readQ
+  wq : WQU u s.writeQ
+  dirty : DirtyOk u s
+  g : ∀ n, n ∈ s.prob → n.key ∈ mv → Unst u s n
+  ku : ∀ i, u = some i → mv = [(getInfo s i).key]
+  mv0 : u = none → mv = []
+
+/-- The use, if not applied yet, is still queued. -/
+def Pend (d : Bool) (u : Option Nat) (s : SState) : Prop :=
+  d = false → u = none ∨ (s.readQ.any isHit || s.writeQ.any isUpsert) = true
+
+theorem Seg.of_eq {d : Bool} {u : Option Nat} {N : List AoNode} {s t : SState} (h : Seg d u N s)
+    (hp : t.prob = s.prob) (hm : ∀ n, Unst u s n → Unst u t n) : Seg d u N t := by
+  obtain ⟨A, T, e, hs, hT, hA⟩ := h
+  exact ⟨A, T, by rw [hp]; exact e, hs, fun n hn => hm n (hT n hn), hA⟩
+
+theorem SI.of_eq {N : List AoNode} {mv : List Nat} {u : Option Nat} {d : Bool} {s t : SState}
+    (h : SI N mv u d s) (e1 : t.prob = s.prob) (e2 : t.map = s.map) (e3 : t.infos = s.infos)
+    (e4 : t.readQ = s.readQ) (e5 : t.writeQ = s.writeQ) : SI N mv u d t := by
+  have hU : ∀ n, Unst u s n → Unst u t n := fun n hn => hn.mono (fun k ve hk => by rw [e2] at hk; exact hk)
+  refine ⟨h.seg.of_eq e1 hU, by rw [e4]; exact h.rq, by rw [e5]; exact h.wq, ?_, ?_, ?_, h.mv0⟩
+  · intro k e he hd
+    rw [e2] at he
+    rw [getInfo_congr e3] at hd
+    exact h.dirty k e he hd
+  · intro n hn hk
+    rw [e1] at hn
+    exact hU n (h.g n hn hk)
+  · intro i hi
+    rw [getInfo_congr e3]
+    exact h.ku i hi
+
+theorem SI.syncRun {p : Params} (hq : NoQuirks p) {N : List AoNode} {mv : List Nat}
+    {u : Option Nat} {d : Bool} {s : SState} (ht : TopInv Sketch.Good s) (h : SI N mv u d s) :
+    SI N mv u (d || (s.readQ.any isHit || s.writeQ.any isUpsert)) (syncRun p s) := by
+  obtain ⟨m, dok⟩ := syncRun_mv (u := u) hq ht h.rq h.wq h.dirty
+  have hkn := ht.map.kn
+  refine ⟨h.seg.step hkn m, ?_, ?_, dok, ?_, ?_, h.mv0⟩
+  · rw [syncRun_readQ]; intro _ _ _ hm; cases hm
+  · rw [syncRun_writeQ]; intro _ _ _ _ _ hm; cases hm
+  · intro n hn hk
+    obtain ⟨A, T, e, hs, hT, _⟩ := m.split
+    rw [e] at hn
+    rcases List.mem_append.mp hn with hn | hn
+    · exact (h.g n (hs.subset hn) hk).mono (m.mapSub hkn)
+    · exact hT n hn
+  · intro i hi
+    rw [(syncRun_frame hq s).key]
+    exact h.ku i hi
+
+theorem Pend.syncRun {p : Params} {u : Option Nat} {d : Bool} {s : SState} (h : Pend d u s) :
+    Pend (d || (s.readQ.any isHit || s.writeQ.any isUpsert)) u (syncRun p s) := by
+  intro hd
+  rw [Bool.or_eq_false_iff] at hd
+  rcases h hd.1 with h1 | h1
+  · exact Or.inl h1
+  · rw [hd.2] at h1; cases h1
+
+theorem Pend.of_eq {u : Option Nat} {d : Bool} {s t : SState} (h : Pend d u s)
+    (e4 : t.readQ = s.readQ) (e5 : t.writeQ = s.writeQ) : Pend d u t := by
+  intro hd; rw [e4, e5]; exact h hd
+
+theorem trySync_si {p : Params} (hq : NoQuirks p) {N : List AoNode} {mv : List Nat}
+    {u : Option Nat} {d : Bool} {s : SState} (ht : TopInv Sketch.Good s) (h : SI N mv u d s) :
+    ∃ d', SI N mv u d' (trySync p s) ∧ (Pend d u s → Pend d' u (trySync p s)) := by
+  unfold trySync
+  split
+  · exact ⟨d, h, fun x => x⟩
+  · dsimp only
+    generalize s.now + Gen.PERIODICAL_SYNC_INTERVAL_MILLIS * 1000000 = sa
+    have ht0 : TopInv Sketch.Good { s with running := true, syncAfter := sa } :=
+      ht.of_eq rfl rfl rfl rfl rfl rfl rfl rfl rfl
+    have h0 : SI N mv u d { s with running := true, syncAfter := sa } :=
+      h.of_eq rfl rfl rfl rfl rfl
+    refine ⟨_, (h0.syncRun hq ht0).of_eq rfl rfl rfl rfl rfl, ?_⟩
+    intro hp
+    have hp0 : Pend d u { s with running := true, syncAfter := sa } := hp.of_eq rfl rfl
+    exact (hp0.syncRun (p := p)).of_eq rfl rfl
+
+theorem housekeepW_si {p : Params} (hq : NoQuirks p) {N : List AoNode} {mv : List Nat}
+    {u : Option Nat} {d : Bool} {s : SState} (ht : TopInv Sketch.Good s) (h : SI N mv u d s) :
+    ∃ d', SI N mv u d' (housekeepW p s) ∧ (Pend d u s → Pend d' u (housekeepW p s)) := by
+  unfold housekeepW; split
+  · exact trySync_si hq ht h
+  · exact ⟨d, h, fun x => x⟩
+
+theorem housekeepR_si {p : Params} (hq : NoQuirks p) {N : List AoNode} {mv : List Nat}
+    {u : Option Nat} {d : Bool} {s : SState} (ht : TopInv Sketch.Good s) (h : SI N mv u d s) :
+    ∃ d', SI N mv u d' (housekeepR p s) ∧ (Pend d u s → Pend d' u (housekeepR p s)) := by
+  unfold housekeepR; split
+  · exact trySync_si hq ht h
+  · exact ⟨d, h, fun x => x⟩
+
+/-- Queuing a write that is not an insert. -/
+theorem SI.push_remove {N : List AoNode} {mv : List Nat} {u : Option Nat} {d : Bool} {s : SState}
+    (h : SI N mv u d s) (hp : Pend d u s) (k : Nat) (ve : VE) :
+    SI N mv u d { s with writeQ := s.writeQ ++ [.remove k ve] } ∧
+    Pend d u { s with writeQ := s.writeQ ++ [.remove k ve] } := by
+  refine ⟨⟨h.seg.of_eq rfl (fun _ x => x), h.rq, ?_, h.dirty, h.g, h.ku, h.mv0⟩, ?_⟩
+  · intro key hash ve' o w hm
+    rcases List.mem_append.mp hm with hm | hm
+    · exact h.wq key hash ve' o w hm
+    · simp at hm
+  · intro hd
+    rcases hp hd with h1 | h1
+    · exact Or.inl h1
+    · refine Or.inr ?_
+      show (s.readQ.any isHit || (s.writeQ ++ [WOp.remove k ve]).any isUpsert) = true
+      rw [List.any_append]
+      simpa [isUpsert] using h1
+
+/-- Recording a miss. -/
+theorem SI.push_miss {N : List AoNode} {mv : List Nat} {u : Option Nat} {d : Bool} {s : SState}
+    (h : SI N mv u d s) (hp : Pend d u s) (hash : UInt64) :
+    SI N mv u d { s with readQ := s.readQ ++ [.miss hash] } ∧
+    Pend d u { s with readQ := s.readQ ++ [.miss hash] } := by
+  refine ⟨⟨h.seg.of_eq rfl (fun _ x => x), ?_, h.wq, h.dirty, h.g, h.ku, h.mv0⟩, ?_⟩
+  · intro hash' ve' ts hm
+    rcases List.mem_append.mp hm with hm | hm
+    · exact h.rq hash' ve' ts hm
+    · simp at hm
+  · intro hd
+    rcases hp hd with h1 | h1
+    · exact Or.inl h1
+    · refine Or.inr ?_
+      show ((s.readQ ++ [ROp.miss hash]).any isHit || s.writeQ.any isUpsert) = true
+      rw [List.any_append]
+      simpa [isHit] using h1
+
+/-- The map step of `invalidate`. -/
+theorem SI.erase {N : List AoNode} {mv : List Nat} {u : Option Nat} {d : Bool} {s : SState}
+    (hkn : (AL.keys s.map).Nodup) (h : SI N mv u d s) (k : Nat) :
+    SI N mv u d { s with map := AL.erase s.map k } := by
+  have hsub := (frame0_erase s k).mapSub hkn
+  have hU : ∀ n, Unst u s n → Unst u { s with map := AL.erase s.map k } n := fun n hn => hn.mono hsub
+  refine ⟨h.seg.of_eq rfl hU, h.rq, h.wq, ?_, fun n hn hk => hU n (h.g n hn hk), h.ku, h.mv0⟩
+  intro k' e he hd
+  exact h.dirty k' e (hsub k' e he) hd
+
+/-! ### the one use of a segment -/
+
+/-- The map step of `insert` (a fresh info, or the resident's info re-timed and marked dirty):
+from now on `i` is the used info. -/
+theorem SI.put {N : List AoNode} {d : Bool} {s c : SState} (h : SI N [] none d s) {k i : Nat}
+    {ve' : VE} (hp : c.prob = s.prob) (hrq : c.readQ = s.readQ) (hwq : c.writeQ = s.writeQ)
+    (hm : c.map = AL.put s.map k ve') (hve : ve'.info = i)
+    (hinf : ∀ j, j ≠ i → getInfo c j = getInfo s j) (hkey : (getInfo c i).key = k) :
+    SI N [k] (some i) false c := by
+  have hU : ∀ n, Unst none s n → Unst (some i) c n := by
+    intro n hn
+    rcases hn with hn | hn
+    · cases hn
+    · by_cases e : n.info = i
+      · exact Or.inl (by rw [e])
+      · refine Or.inr ?_
+        intro x hx
+        rw [hm, AL.get?_put] at hx
+        by_cases ek : k = n.key
+        · rw [if_pos ek] at hx
+          cases hx
+          rw [hve]; exact fun e' => e e'.symm
+        · rw [if_neg ek] at hx
+          exact hn x hx
+  refine ⟨?_, ?_, ?_, ?_, ?_, ?_, fun e => by cases e⟩
+  · obtain ⟨A, T, e, hs, hT, _⟩ := h.seg
+    exact ⟨A, T, by rw [hp]; exact e, hs, fun n hn => hU n (hT n hn), fun e => by cases e⟩
+  · rw [hrq]
+    intro hash ve ts hmem
+    have := h.rq hash ve ts hmem
+    cases this
+  · rw [hwq]
+    intro key hash ve o w hmem
+    have := h.wq key hash ve o w hmem
+    cases this
+  · intro k' e he hd
+    by_cases hei : e.info = i
+    · rw [hei]
+    · exfalso
+      rw [hinf _ hei] at hd
+      rw [hm, AL.get?_put] at he
+      by_cases ek : k = k'
+      · rw [if_pos ek] at he
+        cases he
+        exact hei hve
+      · rw [if_neg ek] at he
+        have := h.dirty k' e he hd
+        cases this
+  · intro n hn hk
+    simp at hk
+    by_cases e : n.info = i
+    · exact Or.inl (by rw [e])
+    · refine Or.inr ?_
+      intro x hx
+      rw [hm, hk, AL.get?_put_self] at hx
+      cases hx
+      rw [hve]; exact fun e' => e e'.symm
+  · intro j hj
+    cases hj
+    rw [hkey]
+
+/-- Queuing the insert of the used info. -/
+theorem SI.push_upsert {N : List AoNode} {mv : List Nat} {i : Nat} {d : Bool} {s : SState}
+    (h : SI N mv (some i) d s) (key : Nat) (hash : UInt64) (ve : VE) (o w : Nat)
+    (hve : ve.info = i) :
+    SI N mv (some i) d { s with writeQ := s.writeQ ++ [.upsert key hash ve o w] } ∧
+    Pend d (some i) { s with writeQ := s.writeQ ++ [.upsert key hash ve o w] } := by
+  refine ⟨⟨h.seg.of_eq rfl (fun _ x => x), h.rq, ?_, h.dirty, h.g, h.ku, h.mv0⟩, ?_⟩
+  · intro key' hash' ve' o' w' hm
+    rcases List.mem_append.mp hm with hm | hm
+    · exact h.wq key' hash' ve' o' w' hm
+    · simp at hm
+      rw [hm.2.2.1, hve]
+  · intro _
+    refine Or.inr ?_
+    show (s.readQ.any isHit || (s.writeQ ++ [WOp.upsert key hash ve o w]).any isUpsert) = true
+    rw [List.any_append]
+    simp [isUpsert]
+
+/-- Recording the hit of a segment that had no use so far. -/
+theorem SI.push_hit {N : List AoNode} {d : Bool} {s : SState} (h : SI N [] none d s) (k : Nat)
+    (hash : UInt64) (ve : VE) (ts : Nat) (hg : ∀ e, AL.get? s.map k = some e → e = ve)
+    (hkey : (getInfo s ve.info).key = k) :
+    SI N [k] (some ve.info) false { s with readQ := s.readQ ++ [.hit hash ve ts] } ∧
+    Pend false (some ve.info) { s with readQ := s.readQ ++ [.hit hash ve ts] } := by
+  refine ⟨⟨?_, ?_, ?_, ?_, ?_, ?_, fun e => by cases e⟩, ?_⟩
+  · obtain ⟨A, T, e, hs, hT, _⟩ := h.seg
+    refine ⟨A, T, e, hs, fun n hn => ?_, fun e => by cases e⟩
+    rcases hT n hn with h1 | h1
+    · cases h1
+    · exact Or.inr h1
+  · intro hash' ve' ts' hm
+    rcases List.mem_append.mp hm with hm | hm
+    · have := h.rq hash' ve' ts' hm; cases this
+    · simp at hm
+      rw [hm.2.1]
+  · intro key hash' ve' o w hm
+    have := h.wq key hash' ve' o w hm
+    cases this
+  · intro k' e he hd
+    have := h.dirty k' e he hd
+    cases this
+  · intro n hn hk
+    simp at hk
+    by_cases hc : ∃ e, AL.get? s.map n.key = some e ∧ e.info = n.info
+    · obtain ⟨e, he, hei⟩ := hc
+      rw [hk] at he
+      rw [hg e he] at hei
+      exact Or.inl (by rw [hei])
+    · exact Or.inr (fun e he hei => hc ⟨e, he, hei⟩)
+  · intro j hj
+    cases hj
+    show [k] = [(getInfo s ve.info).key]
+    rw [hkey]
+  · intro _
+    refine Or.inr ?_
+    show ((s.readQ ++ [ROp.hit hash ve ts]).any isHit || s.writeQ.any isUpsert) = true
+    rw [List.any_append]
+    simp [isHit]
+
+theorem SI.no_use {N : List AoNode} {u : Option Nat} {d : Bool} {s : SState}
+    (h : SI N [] u d s) : u = none := by
+  cases hu : u with
+  | none => rfl
+  | some i => have := h.ku i hu; cases this
+
+/-! ### the recency walk: one step of the model against one step of the oracle -/
+
+/-- The oracle's bookkeeping of a use (`multi = false`). -/
+def useSt (st : RecSt) (k : Nat) : RecSt :=
+  { st with moved := st.moved.filter (· != k) ++ [k],
+            valid := st.valid && (false || st.moved.isEmpty) }
+
+/-- What the recency walk knows about the model state: while the segment since the last
+quiescent snapshot `b` is one the rule speaks about, the segment invariant holds relative to
+the access order shown in `b`. -/
+def WInv (st : RecSt) (s : SState) : Prop :=
+  st.valid = true → ∀ b, st.prev = some b →
+    ∃ N u d, lruOrder b = N.map (·.key) ∧ (N.map (·.key)).Nodup ∧ SI N st.moved u d s ∧ Pend d u s
+
+theorem WInv.of_eq {st : RecSt} {s t : SState} (h : WInv st s) (e1 : t.prob = s.prob)
+    (e2 : t.map = s.map) (e3 : t.infos = s.infos) (e4 : t.readQ = s.readQ)
+    (e5 : t.writeQ = s.writeQ) : WInv st t := by
+  intro hv b hb
+  obtain ⟨N, u, d, h1, h2, h3, h4⟩ := h hv b hb
+  exact ⟨N, u, d, h1, h2, h3.of_eq e1 e2 e3 e4 e5, h4.of_eq e4 e5⟩
+
+theorem WInv.sync {p : Params} (hq : NoQuirks p) {st : RecSt} {s : SState}
+    (ht : TopInv Sketch.Good s) (h : WInv st s) : WInv st (syncRun p s) := by
+  intro hv b hb
+  obtain ⟨N, u, d, h1, h2, h3, h4⟩ := h hv b hb
+  exact ⟨N, u, _, h1, h2, h3.syncRun hq ht, h4.syncRun⟩
+
+theorem topInv_erase {s : SState} (h : TopInv Sketch.Good s) (k : Nat) :
+    TopInv Sketch.Good { s with map := AL.erase s.map k } :=
+  ⟨⟨⟨h.nodes.toNodesCore.congr (fun _ => rfl) (fun _ => rfl) (fun _ => rfl)
+      (List.Perm.refl _) (List.Perm.refl _) (Nat.le_refl _), h.nodes.count⟩,
+    h.map.frame0 (frame0_erase s k), ⟨h.sk.sk, h.sk.skOff⟩⟩, h.nofault⟩
+
+theorem WInv.inv {p : Params} (hq : NoQuirks p) {st : RecSt} {s : SState} (hi : AInv p s)
+    (h : WInv st s) (k : Nat) : WInv st (invalidate p s k) := by
+  unfold invalidate
+  split
+  · exact h
+  · rename_i ve _
+    dsimp only
+    rw [scheduleWriteOp3 p (s := { s with map := AL.erase s.map k }) (qinv_of_eq hi.q rfl rfl rfl)]
+    intro hv b hb
+    obtain ⟨N, u, d, h1, h2, h3, h4⟩ := h hv b hb
+    have h3' := h3.erase hi.top.map.kn k
+    have h4' : Pend d u { s with map := AL.erase s.map k } := h4.of_eq rfl rfl
+    obtain ⟨d', a1, a2⟩ := housekeepW_si hq (topInv_erase hi.top k) h3'
+    obtain ⟨b1, b2⟩ := a1.push_remove (a2 h4') k ve
+    exact ⟨N, u, d', h1, h2, b1, b2⟩
+
+theorem WInv.miss {p : Params} (hq : NoQuirks p) {st : RecSt} {s : SState} (hi : AInv p s)
+    (h : WInv st s) (hash : UInt64) : WInv st (recordReadOp p s (.miss hash)) := by
+  rw [recordReadOp_enqueues p hi.q]
+  intro hv b hb
+  obtain ⟨N, u, d, h1, h2, h3, h4⟩ := h hv b hb
+  obtain ⟨d', a1, a2⟩ := housekeepR_si hq hi.top h3
+  obtain ⟨b1, b2⟩ := a1.push_miss (a2 h4) hash
+  exact ⟨N, u, d', h1, h2, b1, b2⟩
+
+theorem useSt_valid {st : RecSt} {k : Nat} (h : (useSt st k).valid = true) :
+    st.valid = true ∧ st.moved = [] ∧ (useSt st k).moved = [k] := by
+  unfold useSt at h ⊢
+  simp only [Bool.false_or, Bool.and_eq_true, List.isEmpty_iff] at h
+  refine ⟨h.1, h.2, ?_⟩
+  simp [h.2]
+
+theorem WInv.hit {p : Params} (hq : NoQuirks p) {st : RecSt} {s : SState} (hr : RInv p s)
+    (h : WInv st s) (k : Nat) (hash : UInt64) (ve : VE) (ts : Nat)
+    (hg : AL.get? s.map k = some ve) :
+    WInv (useSt st k) (recordReadOp p s (.hit hash ve ts)) := by
+  have hi := hr.ainv
+  rw [recordReadOp_enqueues p hi.q]
+  intro hv b hb
+  obtain ⟨v1, v2, v3⟩ := useSt_valid hv
+  obtain ⟨N, u, d, h1, h2, h3, h4⟩ := h v1 b hb
+  rw [v2] at h3
+  have hu := h3.no_use
+  subst hu
+  obtain ⟨d', a1, _⟩ := housekeepR_si hq hi.top h3
+  have hf := housekeepR_frame hq s
+  have hg' : ∀ e, AL.get? (housekeepR p s).map k = some e → e = ve := by
+    intro e he
+    have := hf.mapSub hi.top.map.kn k e he
+    rw [hg] at this
+    exact (Option.some.inj this).symm
+  have hkey : (getInfo (housekeepR p s) ve.info).key = k := by
+    rw [hf.key]; exact hr.key.map k ve hg
+  obtain ⟨b1, b2⟩ := a1.push_hit k hash ve ts hg' hkey
+  rw [v3]
+  exact ⟨N, some ve.info, false, h1, h2, b1, b2⟩
+
+theorem WInv.getOp {p : Params} (hq : NoQuirks p) {st : RecSt} {s : SState} (hr : RInv p s)
+    (h : WInv st s) (k : Nat) :
+    ((get p s k).2 = none → WInv st (get p s k).1) ∧
+    (∀ v, (get p s k).2 = some v → WInv (useSt st k) (get p s k).1) := by
+  unfold get
+  dsimp only
+  split
+  · exact ⟨fun _ => h.miss hq hr.ainv _, fun v e => by cases e⟩
+  · rename_i ve hg
+    split
+    · exact ⟨fun _ => h.miss hq hr.ainv _, fun v e => by cases e⟩
+    · exact ⟨(fun e => by cases e), fun v _ => h.hit hq hr k _ ve _ hg⟩
+
+theorem WInv.ins {p : Params} (hq : NoQuirks p) {st : RecSt} {s : SState}
+    (hr : RInv p s) (h : WInv st s) (k v : Nat) : WInv (useSt st k) (insert p s k v) := by
+  have hi := hr.ainv
+  have ht := hi.top
+  intro hv b hb
+  obtain ⟨v1, v2, v3⟩ := useSt_valid hv
+  obtain ⟨N, u, d, h1, h2, h3, _⟩ := h v1 b hb
+  rw [v2] at h3
+  have hu := h3.no_use
+  subst hu
+  rw [v3]
+  unfold insert
+  dsimp only
+  split
+  · rename_i old hg
+    have hold := ht.map.bound k old hg
+    have h1t : TopInv Sketch.Good (refreshInfo p s old.info s.now (p.weigh k v)) :=
+      refreshInfo_inv ht _ _ _
+    have hinfo : ∀ j, j ≠ old.info →
+        getInfo (refreshInfo p s old.info s.now (p.weigh k v)) j = getInfo s j := by
+      intro j hj; unfold refreshInfo; rw [getInfo_withInfo, if_neg (fun e => hj e.symm)]
+    have hkey0 : (getInfo (refreshInfo p s old.info s.now (p.weigh k v)) old.info).key = k := by
+      unfold refreshInfo; rw [getInfo_withInfo, if_pos rfl]
+      exact hr.key.map k old hg
+    have e1 : (refreshInfo p s old.info s.now (p.weigh k v)).prob = s.prob := rfl
+    have e2 : (refreshInfo p s old.info s.now (p.weigh k v)).readQ = s.readQ := rfl
+    have e3 : (refreshInfo p s old.info s.now (p.weigh k v)).writeQ = s.writeQ := rfl
+    have e4 : (refreshInfo p s old.info s.now (p.weigh k v)).map = s.map := rfl
+    have e5 : (refreshInfo p s old.info s.now (p.weigh k v)).nextId = s.nextId := rfl
+    have e6 : (refreshInfo p s old.info s.now (p.weigh k v)).running = s.running := rfl
+    generalize refreshInfo p s old.info s.now (p.weigh k v) = r0 at h1t hinfo hkey0 e1 e2 e3 e4 e5 e6 ⊢
+    generalize hc : ({ r0 with nextId := r0.nextId + 1, map := AL.put r0.map k { id := r0.nextId, val := v, info := old.info, slot := old.slot } } : SState) = c
+    have htc : TopInv Sketch.Good c := by
+      rw [← hc]
+      refine ⟨⟨⟨h1t.nodes.toNodesCore.congr (fun _ => rfl) (fun _ => rfl) (fun _ => rfl)
+        (List.Perm.refl _) (List.Perm.refl _) (Nat.le_succ _), h1t.nodes.count⟩, ?_,
+        ⟨h1t.sk.sk, h1t.sk.skOff⟩⟩, h1t.nofault⟩
+      exact mapOK_put h1t.map k _ (r0.nextId + 1) (by show old.info < r0.nextId + 1; omega)
+        (Nat.le_succ _) _ rfl rfl rfl
+    have hqc : QInv c := by
+      rw [← hc]
+      exact ⟨by show r0.running = false; rw [e6]; exact hi.q.running,
+        by show r0.writeQ.length ≤ _; rw [e3]; exact hi.q.writeQ,
+        by show r0.readQ.length ≤ _; rw [e2]; exact hi.q.readQ⟩
+    have hsi : SI N [k] (some old.info) false c := by
+      refine h3.put (k := k) (i := old.info)
+        (ve' := { id := r0.nextId, val := v, info := old.info, slot := old.slot })
+        (by rw [← hc]; exact e1) (by rw [← hc]; exact e2) (by rw [← hc]; exact e3)
+        (by rw [← hc]; show AL.put r0.map k _ = _; rw [e4]) rfl ?_ ?_
+      · intro j hj
+        rw [← hc]
+        exact hinfo j hj
+      · rw [← hc]
+        exact hkey0
+    rw [scheduleWriteOp3 p hqc]
+    obtain ⟨d', a1, _⟩ := housekeepW_si hq htc hsi
+    obtain ⟨b1, b2⟩ := a1.push_upsert k (p.hash k)
+      { id := r0.nextId, val := v, info := old.info, slot := old.slot }
+      (getInfo s old.info).weight (p.weigh k v) rfl
+    exact ⟨N, some old.info, d', h1, h2, b1, b2⟩
+  · rename_i hg
+    have c_info := getInfo_withCand p s k v
+    have hna := ht.nodes.infoFresh s.nextId (Nat.le_refl _)
+    have hao := ht.nodes.toNodesCore.notAdm_ao hna
+    have hwo := ht.nodes.toNodesCore.notAdm_wo hna
+    have htc : TopInv Sketch.Good (withCand p s k v) := by
+      refine ⟨⟨⟨ht.nodes.toNodesCore.congr ?_ ?_ ?_ (List.Perm.refl _) (List.Perm.refl _)
+        (Nat.le_add_right _ 2), ht.nodes.count⟩, ?_, ⟨ht.sk.sk, ht.sk.skOff⟩⟩, ht.nofault⟩
+      · intro j
+        rw [c_info]
+        by_cases e : s.nextId = j
+        · rw [if_pos e, ← e]; exact hao.symm
+        · rw [if_neg e]
+      · intro j
+        rw [c_info]
+        by_cases e : s.nextId = j
+        · rw [if_pos e, ← e]; exact hwo.symm
+        · rw [if_neg e]
+      · intro j
+        rw [c_info]
+        by_cases e : s.nextId = j
+        · rw [if_pos e, ← e]; exact hna.symm
+        · rw [if_neg e]
+      · exact mapOK_put ht.map k (candVE s v) (s.nextId + 2)
+          (by show s.nextId < s.nextId + 2; omega) (Nat.le_add_right _ 2) _ rfl rfl rfl
+    have hqc : QInv (withCand p s k v) := qinv_of_eq hi.q rfl rfl rfl
+    have hsi : SI N [k] (some s.nextId) false (withCand p s k v) := by
+      refine h3.put (k := k) (i := s.nextId) (ve' := candVE s v) rfl rfl rfl rfl rfl ?_ ?_
+      · intro j hj
+        rw [c_info, if_neg (fun e => hj e.symm)]
+      · rw [c_info, if_pos rfl]; rfl
+    show ∃ N u d, _ ∧ _ ∧
+      SI N [k] u d (scheduleWriteOp p 3 (withCand p s k v) (candOp p s k v)) ∧
+      Pend d u (scheduleWriteOp p 3 (withCand p s k v) (candOp p s k v))
+    rw [scheduleWriteOp3 p hqc]
+    obtain ⟨d', a1, _⟩ := housekeepW_si hq htc hsi
+    obtain ⟨b1, b2⟩ := a1.push_upsert k (p.hash k) (candVE s v) 0 (p.weigh k v) rfl
+    exact ⟨N, some s.nextId, d', h1, h2, b1, b2⟩
+
+/-! ### the order at a quiescent snapshot -/
+
+theorem sublist_eq_filter {l' l : List Nat} (hs : l'.Sublist l) (hn : l.Nodup) :
+    l' = l.filter (l'.contains ·) := by
+  induction hs with
+  | slnil => rfl
+  | @cons l1 l2 a h ih =>
+    rw [List.nodup_cons] at hn
+    have : l1.contains a = false := by
+      cases hc : l1.contains a with
+      | false => rfl
+      | true => exact absurd (h.subset (List.contains_iff_mem.mp hc)) hn.1
+    rw [List.filter_cons_of_neg (by rw [this]; exact Bool.false_ne_true)]
+    exact ih hn.2
+  | @cons_cons l1 l2 a h ih =>
+    rw [List.nodup_cons] at hn
+    have ih' := ih hn.2
+    rw [List.filter_cons_of_pos (by simp)]
+    congr 1
+    have hc : l2.filter ((a :: l1).contains ·) = l2.filter (l1.contains ·) := by
+      apply List.filter_congr
+      intro x hx
+      have hxa : x ≠ a := fun e => hn.1 (e ▸ hx)
+      simp [hxa]
+    rw [hc]; exact ih'
+
+theorem prob_keys_nodup {s : SState} (hnc : NodesCore s) (hcur : AllCur s s.prob) :
+    (s.prob.map (·.key)).Nodup := by
+  refine nodup_map_of_inj (·.id) (·.key) s.prob hnc.probIds ?_
+  intro a ha b hb hk
+  obtain ⟨ea, h1, h2⟩ := hcur a ha
+  obtain ⟨eb, h3, h4⟩ := hcur b hb
+  have hk' : a.key = b.key := hk
+  rw [hk', h3] at h1
+  cases h1
+  exact hnc.info_inj ha hb (h2.symm.trans h4)
+
+/-- **The recency rule at a quiescent snapshot.**  With both queues empty and every node
+current, the access order is: the survivors of the reference order `N` (other than the used
+key) in their old relative order, then the used key if it is still resident. -/
+theorem final_order {N : List AoNode} {mv : List Nat} {u : Option Nat} {d : Bool} {s : SState}
+    (hnc : NodesCore s) (hkp : KP s) (hN : (N.map (·.key)).Nodup) (h : SI N mv u d s)
+    (hp : Pend d u s) (hr : s.readQ = []) (hw : s.writeQ = []) (hcur : AllCur s s.prob) :
+    s.prob.map (·.key) =
+      (N.map (·.key)).filter (fun k => (s.prob.map (·.key)).contains k && !mv.contains k) ++
+        mv.filter ((s.prob.map (·.key)).contains ·) := by
+  have hd : d = true ∨ u = none := by
+    cases hdd : d with
+    | true => exact Or.inl rfl
+    | false =>
+      rcases hp hdd with h1 | h1
+      · exact Or.inr h1
+      · rw [hr, hw] at h1; cases h1
+  obtain ⟨A, T, e, hs, hT, hA⟩ := h.seg
+  have hcurN : ∀ n, n ∈ s.prob → ¬ NonCur s n := by
+    intro n hn hnc'
+    obtain ⟨x, hx, hxi⟩ := hcur n hn
+    exact hnc' x hx hxi
+  have hTu : ∀ n, n ∈ T → some n.info = u := by
+    intro n hn
+    rcases hT n hn with h1 | h1
+    · exact h1
+    · exact absurd h1 (hcurN n (by rw [e]; exact List.mem_append_right _ hn))
+  have hAk : (A.map (·.key)).Sublist (N.map (·.key)) := hs.map _
+  have hAeq := sublist_eq_filter hAk hN
+  cases hu : u with
+  | none =>
+    have hT0 : T = [] := by
+      cases hTl : T with
+      | nil => rfl
+      | cons n rest =>
+        have := hTu n (by rw [hTl]; exact List.mem_cons_self)
+        rw [hu] at this; cases this
+    have hmv := h.mv0 hu
+    rw [e, hT0, hmv, List.append_nil]
+    simp only [List.contains_nil, Bool.not_false, Bool.and_true, List.filter_nil, List.append_nil]
+    exact hAeq
+  | some i =>
+    have hdt : d = true := by
+      rcases hd with h1 | h1
+      · exact h1
+      · rw [hu] at h1; cases h1
+    have hmv := h.ku i hu
+    generalize hk : (getInfo s i).key = k at hmv
+    have hTk : ∀ n, n ∈ T → n.key = k := by
+      intro n hn
+      have := hTu n hn
+      rw [hu] at this
+      have hni : n.info = i := Option.some.inj this
+      rw [← hk, ← hni]
+      exact (hkp n (by rw [e]; exact List.mem_append_right _ hn)).symm
+    have hkA : k ∉ A.map (·.key) := by
+      intro hin
+      obtain ⟨m, hm, hmk⟩ := List.mem_map.mp hin
+      have hmp : m ∈ s.prob := by rw [e]; exact List.mem_append_left _ hm
+      rcases h.g m hmp (by rw [hmv]; simp; exact hmk) with h1 | h1
+      · exact hA hdt m hm (by rw [hu] at h1 ⊢; exact h1)
+      · exact hcurN m hmp h1
+    -- `T` has at most one node
+    have hT1 : T = [] ∨ ∃ n, T = [n] := by
+      cases hTl : T with
+      | nil => exact Or.inl rfl
+      | cons n rest =>
+        cases hrl : rest with
+        | nil => exact Or.inr ⟨n, rfl⟩
+        | cons m rest' =>
+          exfalso
+          have hn : n ∈ T := by rw [hTl]; exact List.mem_cons_self
+          have hm : m ∈ T := by rw [hTl, hrl]; exact List.mem_cons_of_mem _ List.mem_cons_self
+          have e1 := hTu n hn
+          have e2 := hTu m hm
+          have hinfo : n.info = m.info := Option.some.inj (e1.trans e2.symm)
+          have hid := hnc.info_inj (by rw [e]; exact List.mem_append_right _ hn)
+            (by rw [e]; exact List.mem_append_right _ hm) hinfo
+          have hnd := hnc.probIds
+          rw [e, hTl, hrl, List.map_append] at hnd
+          have := (List.nodup_append.mp hnd).2.1
+          simp only [List.map_cons, List.nodup_cons, List.mem_cons] at this
+          exact this.1 (Or.inl hid)
+    have hstay : s.prob.map (·.key) = A.map (·.key) ++ T.map (·.key) := by
+      rw [e, List.map_append]
+    rw [hmv, hstay]
+    have hfirst : (N.map (·.key)).filter
+        (fun x => (A.map (·.key) ++ T.map (·.key)).contains x && !([k] : List Nat).contains x) =
+        A.map (·.key) := by
+      conv => rhs; rw [hAeq]
+      apply List.filter_congr
+      intro x _
+      by_cases hxa : x ∈ A.map (·.key)
+      · have hxk : x ≠ k := fun e' => hkA (e' ▸ hxa)
+        simp [hxa, hxk]
+      · have : (A.map (·.key)).contains x = false := by
+          cases hc : (A.map (·.key)).contains x with
+          | false => rfl
+          | true => exact absurd (List.contains_iff_mem.mp hc) hxa
+        by_cases hxk : x = k
+        · rw [this, hxk]
+          simp
+        · have hxT : x ∉ T.map (·.key) := by
+            intro hin
+            obtain ⟨n, hn, hnk⟩ := List.mem_map.mp hin
+            exact hxk (hnk ▸ hTk n hn)
+          simp [hxa, hxT]
+    rw [hfirst]
+    congr 1
+    rcases hT1 with h0 | ⟨n, h1⟩
+    · rw [h0]
+      simp only [List.map_nil, List.append_nil]
+      rw [List.filter_cons_of_neg]
+      · rfl
+      · intro hc
+        exact hkA (List.contains_iff_mem.mp hc)
+    · rw [h1]
+      have hnk : n.key = k := hTk n (by rw [h1]; exact List.mem_cons_self)
+      simp [hnk]
+
+/-! ### the recency walk over a model trace -/
+
+/-- At a quiescent snapshot the walk starts a new segment. -/
+theorem WInv.reset {p : Params} {s : SState} (hr : RInv p s)
+    (hq : quiescent (snapshot p s) = true) :
+    WInv { prev := some (snapshot p s) } s := by
+  simp only [quiescent, Bool.and_eq_true, beq_iff_eq] at hq
+  obtain ⟨⟨hrq, hwq⟩, hcur⟩ := hq
+  have hr0 : s.readQ = [] := List.length_eq_zero_iff.mp hrq
+  have hw0 : s.writeQ = [] := List.length_eq_zero_iff.mp hwq
+  have hnc := hr.ainv.top.nodes.toNodesCore
+  intro _ b hb
+  cases hb
+  refine ⟨s.prob, none, true, lruOrder_snapshot p s,
+    prob_keys_nodup hnc (allCur_of_snapshot hcur), ?_, fun h => by cases h⟩
+  refine ⟨⟨s.prob, [], by simp, List.Sublist.refl _, (fun _ h => by cases h),
+    fun _ _ _ e => by cases e⟩, ?_, ?_, ?_, ?_, (fun _ e => by cases e), fun _ => rfl⟩
+  · rw [hr0]; intro _ _ _ hm; cases hm
+  · rw [hw0]; intro _ _ _ _ _ hm; cases hm
+  · intro k e he hd
+    rcases hr.gd k e he hd with ⟨_, _, _, _, _, hm, _⟩ | h1
+    · rw [hw0] at hm; cases hm
+    · exact h1
+  · intro n _ hk; cases hk
+
+/-- The check at a quiescent snapshot. -/
+theorem WInv.check {p : Params} {st : RecSt} {s : SState} (hr : RInv p s) (h : WInv st s)
+    (hq : quiescent (snapshot p s) = true) :
+    (match st.prev with
+     | some b => !st.valid || lruOrder (snapshot p s) == expectedOrder b (snapshot p s) st.moved
+     | none => true) = true := by
+  cases hb : st.prev with
+  | none => rfl
+  | some b =>
+    dsimp only
+    cases hv : st.valid with
+    | false => rfl
+    | true =>
+      simp only [Bool.not_true, Bool.false_or, beq_iff_eq]
+      obtain ⟨N, u, d, h1, h2, h3, h4⟩ := h hv b hb
+      simp only [quiescent, Bool.and_eq_true, beq_iff_eq] at hq
+      obtain ⟨⟨hrq, hwq⟩, hcur⟩ := hq
+      have hr0 : s.readQ = [] := List.length_eq_zero_iff.mp hrq
+      have hw0 : s.writeQ = [] := List.length_eq_zero_iff.mp hwq
+      have := final_order hr.ainv.top.nodes.toNodesCore hr.key.prob h2 h3 h4 hr0 hw0
+        (allCur_of_snapshot hcur)
+      unfold expectedOrder
+      dsimp only
+      rw [lruOrder_snapshot, h1]
+      exact this
+
+theorem recencyWalk_run {p : Params} (hq : NoQuirks p) (hsm : SmallSketch p) :
+    ∀ (n : Nat) (h : List Op), h.length ≤ n → ∀ (s : SState) (st : RecSt), RInv p s → WInv st s →
+      recencyWalk false st (run p s h) = true := by
+  intro n
+  induction n with
+  | zero =>
+    intro h hl s st _ _
+    have : h = [] := List.length_eq_zero_iff.mp (Nat.le_zero.mp hl)
+    subst this
+    simp [run, recencyWalk]
+  | succ n ih =>
+    intro h hl s st hr hw
+    cases h with
+    | nil => simp [run, recencyWalk]
+    | cons op rest =>
+      have hlr : rest.length ≤ n := by simpa using hl
+      obtain ⟨hrun, _⟩ := run_cons_ok hq hsm hr.ainv op rest
+      have hr1 := rawStep_rinv hq hsm hr op
+      rw [hrun]
+      cases op with
+      | ins k v =>
+        simp only [rawStep, recencyWalk]
+        exact ih rest hlr _ _ hr1 (hw.ins hq hr k v)
+      | get k =>
+        obtain ⟨g1, g2⟩ := hw.getOp hq hr k
+        simp only [rawStep]
+        cases hg : (get p s k).2 with
+        | none =>
+          simp only [recencyWalk]
+          exact ih rest hlr _ _ hr1 (g1 hg)
+        | some v =>
+          simp only [recencyWalk]
+          exact ih rest hlr _ _ hr1 (g2 v hg)
+      | has k =>
+        simp only [rawStep, recencyWalk]
+        exact ih rest hlr _ _ hr1 hw
+      | iter =>
+        simp only [rawStep, recencyWalk]
+        exact ih rest hlr _ _ hr1 hw
+      | inv k =>
+        simp only [rawStep, recencyWalk]
+        exact ih rest hlr _ _ hr1 (hw.inv hq hr.ainv k)
+      | invAll =>
+        simp only [rawStep, recencyWalk]
+        exact ih rest hlr _ _ hr1 (hw.of_eq rfl rfl rfl rfl rfl)
+      | invIf pr =>
+        simp only [rawStep, recencyWalk]
+      | sync =>
+        simp only [rawStep, recencyWalk]
+        exact ih rest hlr _ _ hr1 (hw.sync hq hr.ainv.top)
+      | adv d =>
+        simp only [rawStep, recencyWalk]
+        exact ih rest hlr _ _ hr1 (hw.of_eq rfl rfl rfl rfl rfl)
+      | snap =>
+        simp only [rawStep, recencyWalk]
+        by_cases hqs : quiescent (snapshot p s) = true
+        · rw [if_pos hqs, Bool.and_eq_true]
+          exact ⟨hw.check hr hqs, ih rest hlr _ _ hr1 (WInv.reset hr hqs)⟩
+        · rw [if_neg hqs]
+          exact ih rest hlr _ _ hr1 hw
+      | freq k =>
+        simp only [rawStep, recencyWalk]
+        exact ih rest hlr _ _ hr1 hw
+
+/-- **C12, recency on traces** (concurrent cache driven by one thread). -/
+theorem recencyC12_trace {p : Params} (hq : NoQuirks p) (hsm : SmallSketch p) (h : List Op) :
+    recencyC12 .sync (trace p h) = true := by
+  unfold recencyC12 trace
+  exact recencyWalk_run hq hsm h.length h (Nat.le_refl _) {} {} (init_rinv p)
+    (fun _ b hb => by cases hb)
+
+/-- **C12 on traces** (concurrent cache driven by one thread): the admission windows and the
+recency walk. -/
+theorem oracleC12_trace {p : Params} (hq : NoQuirks p) (hsm : SmallSketch p) (batch : Nat)
+    (h : List Op) :
+    oracleC12 .sync p.cap p.ttl p.tti p.weigh batch (trace p h) = true := by
+  unfold oracleC12
+  cases hcap : p.cap with
+  | none => exact recencyC12_trace hq hsm h
+  | some cap =>
+    dsimp only
+    rw [Bool.and_eq_true]
+    refine ⟨?_, recencyC12_trace hq hsm h⟩
+    unfold trace
+    exact admitC13Sync_run hq hsm hcap h.length h (Nat.le_refl _) {} (init_ainv p)
+
+/-- A hit in a quiescent state, then a maintenance run that ends quiescent: the key goes to
+the most recently used end, the other survivors keep their relative order. -/
+theorem get_sync_order {p : Params} (hq : NoQuirks p) (hsm : SmallSketch p) {s : SState}
+    (hr : RInv p s) (hqs : quiescent (snapshot p s) = true) (k v : Nat)
+    (hv : (get p s k).2 = some v)
+    (hqs' : quiescent (snapshot p (syncRun p (get p s k).1)) = true) :
+    lruOrder (snapshot p (syncRun p (get p s k).1)) =
+      expectedOrder (snapshot p s) (snapshot p (syncRun p (get p s k).1)) [k] := by
+  have h0 := WInv.reset hr hqs
+  have h1 := (h0.getOp hq hr k).2 v hv
+  have hr1 : RInv p (get p s k).1 := rawStep_rinv hq hsm hr (.get k)
+  have h2 := h1.sync hq (p := p) hr1.ainv.top
+  have hr2 : RInv p (syncRun p (get p s k).1) := rawStep_rinv hq hsm hr1 .sync
+  have := h2.check hr2 hqs'
+  simpa [useSt] using this
+
+/-- An insert (new key or update) in a quiescent state, then a maintenance run that ends
+quiescent: the key, if resident, is at the most recently used end, the other survivors keep
+their relative order. -/
+theorem insert_sync_order {p : Params} (hq : NoQuirks p) (hsm : SmallSketch p) {s : SState}
+    (hr : RInv p s) (hqs : quiescent (snapshot p s) = true) (k v : Nat)
+    (hqs' : quiescent (snapshot p (syncRun p (insert p s k v))) = true) :
+    lruOrder (snapshot p (syncRun p (insert p s k v))) =
+      expectedOrder (snapshot p s) (snapshot p (syncRun p (insert p s k v))) [k] := by
+  have h0 := WInv.reset hr hqs
+  have h1 := h0.ins hq hr k v
+  have hr1 : RInv p (insert p s k v) := rawStep_rinv hq hsm hr (.ins k v)
+  have h2 := h1.sync hq (p := p) hr1.ainv.top
+  have hr2 : RInv p (syncRun p (insert p s k v)) := rawStep_rinv hq hsm hr1 .sync
+  have := h2.check hr2 hqs'
+  simpa [useSt] using this
 
 end Admit
 end Sync
